@@ -8,6 +8,8 @@ import (
 	"strings"
 	"sync"
 	"time"
+
+	"nhooyr.io/websocket"
 )
 
 func init() {
@@ -148,6 +150,89 @@ func genPingInsideCase(rng *rand.Rand, k int) *WriteCase {
 		{Kind: "write", Typ: 1, Chunks: []string{hx([]byte("after"))}}}
 	c.Desc = fmt.Sprintf("ping inside a compressed streamed message at %d frame(s) client=%v", k, c.Client)
 	return c
+}
+
+// windowAndTrimDifferential ties C01.slide_spec and C01.trim_spec to the code: the real slidingWindow and
+// trimLastFourBytesWriter (through their verif exports) against the closed forms the theorems state — the
+// window after any sequence of writes is the last min(cap, total) bytes written; what the trim writer passed
+// on followed by what it withholds is what was written, and it withholds the last min(4, total) bytes.
+func windowAndTrimDifferential(rep *Report, rng *rand.Rand, thorough bool) {
+	rounds := 300
+	if thorough {
+		rounds = 6000
+	}
+	for r := 0; r < rounds; r++ {
+		capN := []int{1, 2, 7, 64, 100, 1000, 32768}[rng.Intn(7)]
+		var writes [][]byte
+		for k := 1 + rng.Intn(8); k > 0; k-- {
+			var n int
+			switch rng.Intn(7) {
+			case 0:
+				n = 0
+			case 1:
+				n = capN - 1
+			case 2:
+				n = capN
+			case 3:
+				n = capN + 1
+			case 4:
+				n = 2*capN + rng.Intn(5)
+			default:
+				n = rng.Intn(capN + 3)
+			}
+			if n < 0 {
+				n = 0
+			}
+			if capN == 32768 && rng.Intn(3) != 0 {
+				n = rng.Intn(9000)
+			}
+			writes = append(writes, randBytes(rng, n))
+		}
+		got := websocket.VerifSlidingWindow(capN, writes)
+		rep.eval(fmt.Sprintf("window/%d/%d", capN, len(writes)))
+		var all []byte
+		for i, w := range writes {
+			all = append(all, w...)
+			want := all
+			if len(want) > capN {
+				want = want[len(want)-capN:]
+			}
+			if i >= len(got) || !bytes.Equal(got[i], want) {
+				var sizes []int
+				for _, x := range writes {
+					sizes = append(sizes, len(x))
+				}
+				rep.violate(Violation{Kind: "property", Shape: "sliding-window-not-last-bytes", What: fmt.Sprintf("slidingWindow(cap %d) after writes of sizes %v: after write %d the window is not the last %d bytes written (first difference at %d)", capN, sizes, i, len(want), firstDiff(got[i], want)), Replay: map[string]interface{}{"cap": capN, "write_sizes": sizes}})
+				break
+			}
+		}
+		// trim writer
+		var chunks [][]byte
+		for k := rng.Intn(7); k > 0; k-- {
+			chunks = append(chunks, randBytes(rng, []int{0, 1, 2, 3, 4, 5, 9, 300}[rng.Intn(8)]))
+		}
+		passed, tail := websocket.VerifTrimWriter(chunks)
+		rep.eval(fmt.Sprintf("trim/%d", len(chunks)))
+		var in, out []byte
+		for _, c := range chunks {
+			in = append(in, c...)
+		}
+		for _, c := range passed {
+			out = append(out, c...)
+		}
+		wantTail := len(in)
+		if wantTail > 4 {
+			wantTail = 4
+		}
+		if !bytes.Equal(append(append([]byte(nil), out...), tail...), in) || len(tail) != wantTail {
+			var sizes []int
+			for _, x := range chunks {
+				sizes = append(sizes, len(x))
+			}
+			rep.violate(Violation{Kind: "property", Shape: "trim-writer", What: fmt.Sprintf("trimLastFourBytesWriter over chunks %v: passed %d bytes + withheld %d bytes, written %d", sizes, len(out), len(tail), len(in)), Replay: map[string]interface{}{"chunk_sizes": sizes}})
+		}
+	}
+	rep.count("fn:slidingWindow+trimWriter")
 }
 
 // genHistoryCase: compressible messages totalling more than the 32 KiB window, context takeover.
@@ -374,7 +459,7 @@ func runC01(ctx *runCtx) {
 	ctx.rep.Rule = "programs of 1..6 Write / Writer(chunked) / Ping calls with boundary-heavy sizes (0,125,126,65535,65536,4096k±1,...), both types, compressible and not, both roles, " +
 		"flate off / on with all four (client_no_context_takeover, server_no_context_takeover) pairs, thresholds {default,1,64,4096,huge,random}; plus histories > 32 KiB under context takeover; " +
 		"wire recorded on a sink transport, decoded by an independent codec (+compress/flate with the sender's takeover), compared with the Lean writer model, and fed to a real peer Conn and the Lean reader model; caller buffers snapshotted. " +
-		"a Ping issued inside a compressed streamed message when exactly 1 or 3 of its data frames have been written; Dial against Accept through a real handshake for all 3x3 compression-mode pairs followed by history-dependent messages both ways. distinct = (config, op count, total bytes)"
+		"the real sliding window and trim writer against the closed forms of slide_spec / trim_spec; a Ping issued inside a compressed streamed message when exactly 1 or 3 of its data frames have been written; Dial against Accept through a real handshake for all 3x3 compression-mode pairs followed by history-dependent messages both ways. distinct = (config, op count, total bytes)"
 	if replayWrite(ctx, "C01") {
 		return
 	}
@@ -404,6 +489,7 @@ func runC01(ctx *runCtx) {
 		}
 	}
 	runWriteCases(ctx, cases, "C01")
+	windowAndTrimDifferential(ctx.rep, rng, ctx.thorough())
 	// end to end through a real handshake: Dial against Accept for every pair of compression modes, then
 	// messages that refer back to earlier ones, both directions (what the two ends negotiated decides
 	// whether the peer can decode)
